@@ -128,6 +128,16 @@ theorem backup_then_backup (r : Repo) (tr tr2 : List Ev) (hacc : accept_backup r
   rw [Bool.and_eq_true]
   exact ⟨snapPresent_of_mem this.1, this.2⟩
 
+/-- **C11 end to end for the transcribed writer**: whatever the pack jobs, the uploader schedule
+    and the failure points are, every crash state of the run satisfies the executable statement
+    of C11 (`specC11State`: abstract check, every older snapshot present and restorable). -/
+theorem backupRun_safe (r0 : Repo) (jobs : List PackJob) (sched : List (Nat × Bool)) (fid : Nat)
+    (flushFails : Bool) (sid : Nat) (sn : Snap) (snapFails : Bool)
+    (hplan : Restic.Proofs.Writer.PlanOK r0 jobs sn) (hc : checkOK r0 = true) (k : Nat) :
+    specC11State r0 (applyAll r0 ((backupRun jobs sched fid flushFails sid sn snapFails).take k)) = true :=
+  (backup_prefix_safe r0 _
+    (Restic.Proofs.Writer.backupRun_accepted r0 jobs sched fid flushFails sid sn snapFails hplan) hc k).2.2
+
 /-! ### T1: call orders the writer transcription relies on (regenerated on every run) -/
 
 def idx (l : List String) (c : String) : Nat := l.idxOf c
